@@ -136,7 +136,7 @@ func execE(prop string, sc *core.Scenario, idx int, st *core.Stats) *esim.Result
 	if nontrivialFor(prop)(res) {
 		st.AddNonTrivial(res.Finger)
 		st.AddSample(map[string]interface{}{"grl": sc.GRL, "facts": sc.Facts, "knobs": sc.Knobs, "schedule": sc.Schedule,
-			"faults": sc.Faults, "cancel_at": sc.CancelAt, "removed": sc.Removed, "end": res.End, "events": res.Events, "firings": res.Firings}, 3)
+			"faults": sc.Faults, "cancel_at": sc.CancelAt, "cancel_at_callback": sc.CancelAtCallback, "deadline_ns": sc.DeadlineNs, "removed": sc.Removed, "end": res.End, "events": res.Events, "firings": res.Firings}, 3)
 	}
 	for _, v := range res.Violations {
 		if v.Property != prop {
@@ -335,6 +335,27 @@ func runCancels(c *Check, seed uint64, i int, tier string, st *core.Stats) {
 		sc := base.Clone()
 		sc.CancelAt = k
 		execE(c.ID, sc, i, st)
+	}
+	// cancellation from inside a listener callback (Begin / Evaluate / Execute notification)
+	if base.Knobs.Listeners > 0 && clean.Callbacks > 0 {
+		cbs := make([]int, 0, clean.Callbacks)
+		for k := 1; k <= clean.Callbacks; k++ {
+			cbs = append(cbs, k)
+		}
+		if len(cbs) > limit/2 {
+			p := r.Perm(len(cbs))[:limit/2]
+			sub := make([]int, 0, limit/2)
+			for _, x := range p {
+				sub = append(sub, cbs[x])
+			}
+			cbs = sub
+		}
+		for _, k := range cbs {
+			sc := base.Clone()
+			sc.CancelAtCallback = k
+			execE(c.ID, sc, i, st)
+		}
+		st.Probes["cancel-in-callback-positions"] += int64(len(cbs))
 	}
 	if len(clean.TimeAt) > 0 {
 		total := clean.TimeAt[len(clean.TimeAt)-1]
